@@ -704,6 +704,7 @@ def scan_class(cnode, file, info, errors, module_funcs=None):
                 names = [x.arg for x in a.args][1:]
                 defaults = [None] * (len(names) - len(a.defaults)) + [ast.unparse(d) for d in a.defaults]
                 cinfo['init_params'] = list(zip(names, defaults))
+                cinfo['init_reads'] = sorted({x.id for x in ast.walk(fn) if isinstance(x, ast.Name) and isinstance(x.ctx, ast.Load) and x.id in set(names)})
                 # a constructor hands its arguments on as it received them: a parameter that is re-bound (`x = x or default`, a
                 # normalisation, a copy) reaches the validated setters as another value than the caller gave
                 pset = set(names)
